@@ -23,6 +23,21 @@ RPC_PAIRS = {
         'mistral.notifiers.notification_server.NotificationServer',
 }
 
+# method names of builtin containers / strings / ORM objects: an attribute
+# call with an uninferred receiver and one of these names is far more likely
+# a dict/list/str/model operation than a call of the repository's method of
+# the same name, so the method-name CHA fallback skips them
+BUILTIN_METHOD_NAMES = {
+    'update', 'get', 'items', 'keys', 'values', 'append', 'pop', 'copy',
+    'add', 'remove', 'clear', 'extend', 'insert', 'format', 'join', 'split',
+    'strip', 'encode', 'decode', 'setdefault', 'index', 'count', 'sort',
+    'startswith', 'endswith', 'replace', 'lower', 'upper', 'read', 'write',
+    'close', 'delete', 'save', 'filter', 'all', 'first', 'one', 'put',
+    'start', 'stop', 'run', 'wait', 'set', 'reset', 'lock', 'find',
+    'match', 'search', 'group', 'send', 'call', 'commit', 'rollback',
+    'flush', 'refresh', 'execute', 'query', 'to_dict', 'validate',
+}
+
 # kinds of edges that stay inside the calling thread/transaction
 SYNC_KINDS = ('call', 'ref', 'cha')
 ALL_KINDS = None
@@ -281,6 +296,8 @@ class CallGraph(object):
                 if not tg and isinstance(n.func, ast.Attribute):
                     # method-name CHA fallback
                     cands = self._method_index.get(n.func.attr, ())
+                    if n.func.attr in BUILTIN_METHOD_NAMES:
+                        cands = ()
                     if 0 < len(cands) <= 12 and not self._external_recv(
                             f, env, n.func):
                         tg = {(c, 'cha') for c in cands}
